@@ -107,6 +107,8 @@ func zzStore() *kube.Store {
 	s := kube.New()
 	s.Register(&v1beta1.Lock{}, &v1beta1.LockList{}, "pkg.crossplane.io", "Lock")
 	s.Register(&v1.Provider{}, &v1.ProviderList{}, "pkg.crossplane.io", "Provider")
+	s.Register(&v1.Configuration{}, &v1.ConfigurationList{}, "pkg.crossplane.io", "Configuration")
+	s.Register(&v1.Function{}, &v1.FunctionList{}, "pkg.crossplane.io", "Function")
 	return s
 }
 
@@ -155,6 +157,11 @@ func zzInstalled(s *kube.Store) (string, bool) {
 		return "", false
 	}
 	return p.Spec.Package, true
+}
+
+// zzInstalledKinds reports which package kinds exist under the dependency's name.
+func zzInstalledKinds(s *kube.Store) (provider, configuration, function bool) {
+	return s.Exists("pkg.crossplane.io", "Provider", "", "org-pkg-b"), s.Exists("pkg.crossplane.io", "Configuration", "", "org-pkg-b"), s.Exists("pkg.crossplane.io", "Function", "", "org-pkg-b")
 }
 
 // HarnessC17Install: for a dependency that is not installed the resolver
@@ -219,6 +226,46 @@ func HarnessC17Install() {
 		zz.Assert("installed-version-is-one-of-the-tags", isTag)
 	}
 	zz.Observe("installed", created, got)
+}
+
+// HarnessC17InstallKind: a missing dependency is installed as a package of
+// the kind its parent declares (provider, configuration or function), at the
+// one tag that satisfies the constraint.
+//
+//gosym:harness
+//gosym:cover provider configuration function
+func HarnessC17InstallKind() {
+	s := zzStore()
+	kind := zz.Choose("dependency.type", 3)
+	typ := []v1beta1.PackageType{v1beta1.ProviderPackageType, v1beta1.ConfigurationPackageType, v1beta1.FunctionPackageType}[kind]
+	lock := &v1beta1.Lock{ObjectMeta: metav1.ObjectMeta{Name: lockName}}
+	lock.Packages = []v1beta1.LockPackage{{
+		Name: "pkg-a-rev", Type: ptr.To(v1beta1.ConfigurationPackageType), Source: zzParentA, Version: "v1.0.0",
+		Dependencies: []v1beta1.Dependency{{Package: zzDep, Type: ptr.To(typ), Constraints: ">=v1.0.0"}},
+	}}
+	s.Put(lock)
+	r := zzReconciler(s, []string{"v0.9.0", "v1.2.0"}, zz.Bool("upgradesEnabled"), false)
+	_, err := r.Reconcile(context.Background(), reconcile.Request{NamespacedName: types.NamespacedName{Name: lockName}})
+	zz.Assert("install-no-error", err == nil)
+	p, c, f := zzInstalledKinds(s)
+	zz.Cover([]string{"provider", "configuration", "function"}[kind])
+	zz.Assert("dependency-installed-as-the-declared-kind", p == (kind == 0) && c == (kind == 1) && f == (kind == 2))
+	var src string
+	switch kind {
+	case 0:
+		o := &v1.Provider{}
+		s.Peek("", "org-pkg-b", o)
+		src = o.Spec.Package
+	case 1:
+		o := &v1.Configuration{}
+		s.Peek("", "org-pkg-b", o)
+		src = o.Spec.Package
+	case 2:
+		o := &v1.Function{}
+		s.Peek("", "org-pkg-b", o)
+		src = o.Spec.Package
+	}
+	zz.Assert("installed-at-the-satisfying-tag", src == zzDep+":v1.2.0")
 }
 
 // HarnessC17Upgrade: with upgrades enabled, an installed dependency whose
